@@ -101,7 +101,29 @@ func (p *Parser) Parse(source string) (Node, error) {
 	// Clean up token slice after successful parsing
 	ReleaseTokenSlice(p.tokens)
 
+	linkMacros(nodes)
+
 	return NewRootNode(nodes, 1), nil
+}
+
+// linkMacros lets every macro defined at the top level of a template find the
+// other macros of that template, so that a macro can call its siblings wherever
+// it is called from.
+func linkMacros(nodes []Node) {
+	var siblings map[string]Node
+	for _, node := range nodes {
+		if macro, ok := node.(*MacroNode); ok {
+			if siblings == nil {
+				siblings = make(map[string]Node)
+			}
+			siblings[macro.name] = macro
+		}
+	}
+	for _, node := range nodes {
+		if macro, ok := node.(*MacroNode); ok {
+			macro.siblings = siblings
+		}
+	}
 }
 
 // Initialize block handlers for different tag types
